@@ -115,13 +115,15 @@ def build_source(root, nodes):
                  follow_symlinks=False)
 
 
-def build_pre(base, pre):
+def build_pre(base, pre, fsize=0):
     if pre == 'none':
         return
     os.makedirs(base, exist_ok=True)
-    if pre == 'big_f':
+    if pre in ('big_f', 'small_f', 'same_f'):
+        n = 40 if pre == 'big_f' else fsize if pre == 'same_f' else \
+            max(fsize - 3, 1 if fsize == 0 else 0)
         with open(os.path.join(base, 'f'), 'wb') as f:
-            f.write(b'\xee' * 40)
+            f.write(b'\xee' * n)
     elif pre == 'dir_f':
         os.mkdir(os.path.join(base, 'f'))
     elif pre == 'file_d':
@@ -210,8 +212,10 @@ def run_case(w, idx, nodes, fl, out, errs, fatal, sparse=True, version=3):
     if mode != 'dir_new':
         os.makedirs(dstroot)
     base = dstroot if mode != 'dir_into' else os.path.join(dstroot, 'src')
-    build_pre(base, pre)
+    fsize = BYTES[nodes['f'][1]] if nodes.get('f', ('', 0))[0] == 'file' else 7
+    build_pre(base, pre, fsize)
     before = snapshot(base)
+    progress = []
 
     def rpath(full):
         """how the client names a path on the server"""
@@ -227,6 +231,9 @@ def run_case(w, idx, nodes, fl, out, errs, fatal, sparse=True, version=3):
               preserve=fl['preserve'], sparse=sparse, block_size=8,
               max_requests=3,
               error_handler=(reported.append if fl['handler'] else None))
+    if fl.get('progress'):
+        kw['progress_handler'] = lambda sp, dp, done, total: \
+            progress.append((sp, dp, done, total))
     one = 'l' if 'l' in nodes else 'f' if 'f' in nodes else \
         sorted(p for p in nodes if '/' not in p)[0]
     if mode == 'glob':
@@ -290,6 +297,41 @@ def run_case(w, idx, nodes, fl, out, errs, fatal, sparse=True, version=3):
             elif not os.path.islink(sfull) or os.readlink(sfull) != v[1]:
                 res['l1'].append(('TreeReproduced', f'link {rel!r} -> '
                                   f'{v[1]!r} differs from the source'))
+    # ResultEqualsSource: every file the walk covers holds the source's bytes
+    # at the end, whether or not the call had to change it
+    for rel, kind in sorted(scope.items()):
+        if kind != 'file' or exc is not None or rel in changed or \
+                any(rel == r or rel.startswith(r + '/') or r == ''
+                    for r in rep):
+            continue
+        got = after.get(rel)
+        if got is not None and got[0] == 'file':
+            with open(os.path.join(srcroot, rel) if rel else srcroot,
+                      'rb') as f:
+                want = f.read()
+            if got[1] != want:
+                res['l1'].append(('ResultEqualsSource', f'file {rel!r}: the '
+                                  f'destination still holds {len(got[1])} '
+                                  f'bytes {got[1][:12]!r} from before the '
+                                  f'call, the source has {len(want)} bytes, '
+                                  f'and no error was reported'))
+    if fl.get('progress') and not any_error:
+        # the handler's reports: per file monotone, the last one complete,
+        # at least one also for an empty file
+        per = {}
+        for sp, dp, done, total in progress:
+            per.setdefault(sp, []).append((done, total))
+        for rel, kind in sorted(scope.items()):
+            if kind != 'file':
+                continue
+            sp = (sname + ('/' + rel if rel else '')).encode()
+            size = os.path.getsize(os.path.join(srcroot, rel))
+            reps = per.get(sp, [])
+            ok = bool(reps) and reps[-1] == (size, size) and \
+                all(a[0] <= b[0] for a, b in zip(reps, reps[1:]))
+            if not ok:
+                res['l1'].append(('ProgressReports', f'file {rel!r} of '
+                                  f'{size} bytes: progress reports {reps}'))
     if not any_error:
         for rel, kind in sorted(scope.items()):
             got = after.get(rel)
